@@ -41,9 +41,13 @@ func (m *Model) PullAccessAttempts(ctx context.Context, opts ...resource.ReadOpt
 		defer close(send)
 		for change := range recv {
 			value := change.Value.(*traits.AccessAttempt)
-			send <- PullAccessAttemptsChange{
+			select {
+			case <-ctx.Done():
+				return
+			case send <- PullAccessAttemptsChange{
 				Value:      value,
 				ChangeTime: change.ChangeTime,
+			}:
 			}
 		}
 	}()
